@@ -152,9 +152,12 @@ def run(ctx):
     # Callbacks = TRUE): back-to-back commits, the main thread samples what the reader serves: never a step back
     vlib.mc_check(ctx, "ReloadProto", "ReloadProto_watch.cfg", timeout=120, workers=2)
     vlib.mc_check(ctx, "ReloadProto", "ReloadProto_watch_negF48.cfg", expect_violation="FreshAtRest", timeout=120, workers=2)
-    wp = ctx.path("watch.ndjson")
-    vlib.run_bin("reader_driver", ["watch", "--seed", ctx.seed + 7, "--runs", 40 if ctx.quick else 600, "--out", wp], timeout=1800)
-    wev = [{k: v for k, v in e.items() if k in ("ev", "commits", "samples", "fresh")} for e in vlib.read_ndjson(wp)]
+    # (one process per 80 runs: the warmers' collection thread of tantivy outlives its reader - see the observations in DESIGN 12.4)
+    wev = []
+    for b in range(1 if ctx.quick else 8):
+        wp = ctx.path(f"watch.{b}.ndjson")
+        vlib.run_bin("reader_driver", ["watch", "--seed", ctx.seed + 7 + 100 * b, "--runs", 40 if ctx.quick else 80, "--out", wp], timeout=1800)
+        wev += [{k: v for k, v in e.items() if k in ("ev", "commits", "samples", "fresh")} for e in vlib.read_ndjson(wp)]
     wruns = vlib.split_runs(wev)
     n7 = tracecheck.validate_runs(ctx, wruns, "watch", "WatchTrace", "WatchTrace.cfg", key=lambda r: json.dumps(r[-1].get("samples")), nontrivial=lambda r: True, timeout=300)
     ctx.cov["traces_validated_against_impl"] += n7
